@@ -190,9 +190,9 @@ Proof. exact (proj2 to_ltok_unflat). Qed.
 
 (* non-vacuity:   #A={d [2 e]}   then the tokens of   c #A g   against those of   c d [2 e] g   *)
 Definition ex_ls : lexstate :=
-  match lex (mkLex 96 [] init_vars rhythm_rows) [35; 65; 61; 123; 100; 32; 91; 50; 32; 101; 93; 125] 0 with
+  match lex (mkLex 96 [] init_vars rhythm_rows false) [35; 65; 61; 123; 100; 32; 91; 50; 32; 101; 93; 125] 0 with
   | Ok (_, ls) => ls
-  | _ => mkLex 0 [] [] []
+  | _ => mkLex 0 [] [] [] false
   end.
 Definition ex_s0 : song := song_after_lex ex_ls.
 Definition ex_note (b : Z) : tok := TNote b 0 0 [] 0 (-1) ISIZE_MIN (-1) 0.
@@ -282,10 +282,10 @@ Proof. exact rhythm_get_last_wins. Qed.
 Example C09_rhythm_example :
   rhythm_expand 16 rhythm_rows [98; 115; 40; 118; 49; 48; 40; 120; 41; 41; 104; 83; 117; 98; 115]
   = [110; 51; 54; 44; 110; 51; 56; 44; 118; 49; 48; 40; 120; 41; 110; 52; 50; 44; 83; 85; 66; 110; 51; 56; 44] /\
-  (exists toks, lex (mkLex 96 [] init_vars rhythm_rows) [36; 98; 123; 110; 51; 53; 44; 125] 0
-                = Ok (toks, mkLex 96 [] init_vars ((98, [110; 51; 53; 44]) :: rhythm_rows))) /\
+  (exists toks, lex (mkLex 96 [] init_vars rhythm_rows false) [36; 98; 123; 110; 51; 53; 44; 125] 0
+                = Ok (toks, mkLex 96 [] init_vars ((98, [110; 51; 53; 44]) :: rhythm_rows) false)) /\
   (* $b{n35,} $b{n40,} Rhythm{bs}  lexes like  n40,n38, *)
-  (exists ls, lex (mkLex 96 [] init_vars rhythm_rows)
+  (exists ls, lex (mkLex 96 [] init_vars rhythm_rows false)
                   [36; 98; 123; 110; 51; 53; 44; 125; 32; 36; 98; 123; 110; 52; 48; 44; 125; 32; 82; 104; 121; 116; 104; 109; 123; 98; 115; 125] 0
               = Ok ([TLineNo 0; TLineNo 0; TNoteN 40 [] 0 (-1) ISIZE_MIN 0; TNoteN 38 [] 0 (-1) ISIZE_MIN 0], ls)).
 Proof. split; [vm_compute; reflexivity|]. split; eexists; vm_compute; reflexivity. Qed.
